@@ -2,5 +2,5 @@ SPECIFICATION Spec
 CONSTANTS
   MaxLen = 7
 VIEW View
-INVARIANTS TypeOK LiveInv Refines RemainderInv ItemsInside EmitInv
+INVARIANTS TypeOK LiveInv Refines RemainderInv ItemsInside ArithInv EmitInv
 CHECK_DEADLOCK FALSE
